@@ -195,7 +195,7 @@ DoPassword ==
                       <<ValidateCb(Head1), Rv(ErrClass("28")), Rv(MsgReady), CloseEv>>})
           /\ Closed
        \/ \* the validator fails: close, an ErrorResponse is optional
-          /\ Head1.pw = "err"
+          /\ Head1.pw \in {"err", "errc"}      \* "errc": the error carries a SQLSTATE / severity of its own
           /\ EmitOne({<<ValidateCb(Head1), CloseEv>>,
                       <<ValidateCb(Head1), Rv(ErrAny), CloseEv>>,
                       <<ValidateCb(Head1), Rv(ErrAny), Rv(MsgReady), CloseEv>>})
@@ -294,7 +294,7 @@ DwCb(name, ret, written) == Cb([name |-> name, ret |-> ret, written |-> written]
 
 HRow ==
     /\ Running /\ Op.op = "row"
-    /\ IF h.closed \/ Len(Op.cells) # Len(h.st.cols) \/ ~RowEncodable(Op.cells)
+    /\ IF h.closed \/ Len(Op.cells) # Len(h.st.cols) \/ ~RowEncodable(Op.cells, h.rfmt)
        THEN \* closed writer, wrong arity, unencodable value: nothing emitted,
             \* the counter does not move, the call fails
             /\ emit' = <<DwCb("dw.row", "err", h.written)>>
